@@ -336,6 +336,15 @@ C09(pre, e, post, line) ==
                          RLe(RAbs(RSub(R(q.cache.price), pr.p)), RMul(TINY, RAdd(ROne, RAbs(pr.p)))), [bank |-> bn])
                   /\ Chk("C09", "confidence_scaled_to_95_and_capped_at_5_percent", line,
                          RLe(RAbs(RSub(R(q.cache.price_conf), pr.ci)), RMul(TINY, RAdd(ROne, RAdd(RAbs(pr.p), pr.ci)))), [bank |-> bn])
+  \* an accepted borrow / withdrawal: a position whose price is unusable (stale, substituted, unauthentic, confidence beyond
+  \* the maximum, venue reserve not refreshed) counted for nothing - the account is initially healthy without it
+  /\ (e.ev \in {"borrow", "withdraw", "kamino_withdraw"} /\ Ok(e) /\ Has(e.a, "acct") /\ Has(post.accts, e.a.acct)) =>
+       LET a == post.accts[e.a.acct]
+           bad == {i \in ActiveSlots(a) : BGe(a.bal[i].a, FOne) /\ LET pr == RefPrice(post, e, a.bal[i].bank, "TW") IN pr.known /\ pr.usable = "no"}
+           hasDebt == \E i \in ActiveSlots(a) : BGe(a.bal[i].l, FOne)
+           h == HealthRef(post, e, a, "Init", "fav")
+       IN (bad # {} /\ hasDebt /\ h.known /\ ~Bit(a.flags, ACC_FLASHLOAN) /\ ~Bit(a.flags, ACC_RECEIVERSHIP)) =>
+          Chk("C09", "position_with_unusable_price_counts_for_nothing", line, RGe(Health(h), RNeg(h.tol)), [acct |-> e.a.acct, ev |-> e.ev])
   /\ (e.ev = "liquidate" /\ Ok(e)) =>
        LET pa == RefPrice(pre, e, e.a.asset_bank, "RT") pl == RefPrice(pre, e, e.a.liab_bank, "RT")
            h == HealthRef(pre, e, pre.accts[e.a.liquidatee], "Maint", "fav") IN
@@ -387,7 +396,7 @@ C13(pre, e, post, line) ==
        \A bn \in DOMAIN post.banks :
          LET q == post.banks[bn] g == post.groups[q.group]
              changed == ~Has(pre.banks, bn) \/ pre.banks[bn].cfg # q.cfg \/ pre.banks[bn].emode # q.emode
-         IN (changed /\ q.cfg.asset_tag \in {0, 1, 2}) =>
+         IN (changed /\ q.cfg.asset_tag \in {0, 1, 2, 3}) =>
             LET v == ConfigValid(q, g) IN
             /\ Chk("C13", "weights_coherent", line, v.weights, [bank |-> bn, ev |-> e.ev])
             /\ Chk("C13", "isolated_has_zero_asset_weights", line, v.isolated, [bank |-> bn, ev |-> e.ev])
